@@ -5,7 +5,7 @@
 From Coq Require Import List Bool Arith NArith Lia.
 Import ListNotations.
 From Verif Require Import SendReq.Model SendReq.ProofsBound SendReq.ProofsSelect SendReq.ProofsLoop
-  SendReq.ProofsFlags SendReq.ProofsResult SendReq.ProofsLasso SendReq.ProofsBudget.
+  SendReq.ProofsFlags SendReq.ProofsResult SendReq.ProofsLasso SendReq.ProofsBudget SendReq.Cache SendReq.ProofsCache SendReq.ProofsCancel.
 
 (* --- boundedness --------------------------------------------------------------------------------------------- *)
 (* Every attempt uses up one of the maxReplicaAttempt (10) attempts of some replica; attempts are only ever given back by
@@ -118,6 +118,35 @@ Theorem C10_backoffs_bounded : forall c script rands sleeps,
 Proof. intros c script rands sleeps M. exact (run_backoffs true c script rands sleeps M). Qed.
 Print Assumptions C10_backoffs_bounded.
 
+(* --- caller cancellation stops the call ----------------------------------------------------------------------------- *)
+(* A context cancelled before the call lets at most ONE attempt reach a client; a context cancelled while attempt k is in flight
+   (attempts 0..k were made) lets at most one more (it is answered with the context error, and an RPC-level answer under a dead
+   context ends the call).  Not covered by this theorem: a cancellation raised during a back-off sleep (TBo), where the attempt
+   index at which it strikes depends on the run. *)
+Theorem C10_cancel_stops : forall c script rands sleeps,
+  (c_cancel c = TPre -> n_attempts (fst (run c script rands sleeps)) <= 1) /\
+  (forall k, c_cancel c = TAtt k -> n_attempts (fst (run c script rands sleeps)) <= k + 2).
+Proof. exact run_cancel. Qed.
+Print Assumptions C10_cancel_stops.
+
+(* --- sequences of calls on the same cached region ----------------------------------------------------------------- *)
+(* [run_st] = [run] that also PREDICTS the cache state the call leaves (cached leader, memoised proxy, per-store liveness / slow
+   mark / epoch staleness / load estimate; a region invalidated by the call is loaded again from PD): the check compares this
+   prediction with the state observed before the next call.  It is the same run: *)
+Theorem C10_cache_same_run : forall c script rands sleeps pd,
+  fst (run_st c script rands sleeps pd) = run c script rands sleeps.
+Proof. exact run_st_fst. Qed.
+Print Assumptions C10_cache_same_run.
+
+(* [run_seq]: each call starts from the cache state its predecessor left.  Every call of every sequence is bounded (by the
+   replica count of the state it starts from), whatever the scripts, from any initial cache state. *)
+Theorem C10_bounded_seq : forall calls c pd,
+  Forall (fun cx => n_attempts (fst (snd cx)) <=
+                    max_replica_attempt * length (c_reps (fst cx)) + length (c_reps (fst cx)) * (length (c_reps (fst cx)) - 1))
+         (run_seq c calls pd).
+Proof. exact (run_seq_each (fun c x => n_attempts (fst x) <= max_replica_attempt * length (c_reps c) + length (c_reps c) * (length (c_reps c) - 1)) C10_bounded). Qed.
+Print Assumptions C10_bounded_seq.
+
 (* --- non-vacuity --------------------------------------------------------------------------------------------- *)
 Definition c_stale_read : cfg := mkCfg RTMixed true true false false false false 100000%N true
   [fresh_rep Reachable false false false; fresh_rep Reachable false false false; fresh_rep Reachable false false false] false TpTiKV TNever TNever true 0 None false.
@@ -183,3 +212,15 @@ Example ex_memoised_proxy :
   run c_later_call (repeat OStaleCommand 40) [] [] =
   ([EProxy 1; EAtt 0 false false false; EProxy 2; EAtt 0 false false true], RPseudo).
 Proof. vm_compute. reflexivity. Qed.
+
+(* two calls on the same cached region, forwarding on: call 1 finds the leader's store unreachable and succeeds through replica 1,
+   which is memoised; call 2 (leader still unreachable, StaleCommand for ever) uses the memoised proxy once, then replica 2, gives up *)
+Definition c_fw_ok : cfg := mkCfg RTLeader false true false false false false 100000%N true (c_reps c0) true TpTiKV TNever TNever true 0 None false.
+Example ex_two_calls :
+  map snd (run_seq c_fw_ok [([ORpcErr Unreachable], [], [55%N]); (repeat OStaleCommand 40, [], [])] 0) =
+  [([EAtt 0 false false false; EBo BoRPC 55; EProxy 1; EAtt 0 false false true], RSuccess 1);
+   ([EProxy 1; EAtt 0 false false false; EProxy 2; EAtt 0 false false true], RPseudo)] /\
+  map (fun cx => (c_leader0 (fst cx), c_proxy0 (fst cx), map live (c_reps (fst cx))))
+      (run_seq c_fw_ok [([ORpcErr Unreachable], [], [55%N]); (repeat OStaleCommand 40, [], [])] 0) =
+  [(0, None, [Reachable; Reachable; Reachable]); (0, Some 1, [Unreachable; Reachable; Reachable])].
+Proof. vm_compute. auto. Qed.
